@@ -1,6 +1,1701 @@
-//! C03 — harness module not built yet.
+//! C03 — per-address, per-whitelist and per-stage mint limits are never exceeded
+//! (vending family).  Histories of mints by three buyers, a stranger and the admin on
+//! every (minter variant x whitelist kind) pairing the wire formats admit (and the ones
+//! they do not), interleaved with limit updates on the minter and on the whitelist,
+//! whitelist swaps before start, tiered stage hand-over and the clock visiting every
+//! stage edge; adversarial stage / proof / allocation arguments on the Merkle variants.
+//! Monitors recount the successful mints per (address, phase, whitelist, stage) from the
+//! trace and compare with the limit / entitlement in force right before each success
+//! (read from the contracts' own queries, or from the harness' knowledge of the Merkle
+//! tree) and with the MintCount query.  Every minter step is printed for the Coq model.
+use crate::chain;
+use crate::util::*;
+use crate::oe_world::{OeCfg, OeOp, OeWorld, OE_VARIANTS};
+use crate::w_sale::*;
+use cw_multi_test::Executor;
 use crate::Args;
-pub fn run(_a: &Args) {
-    eprintln!("C03: harness module not built yet");
-    std::process::exit(2);
+use cosmwasm_std::Addr;
+use serde::{Deserialize, Serialize};
+use serde_json::{json, Value};
+use std::collections::{BTreeMap, BTreeSet};
+
+// ---------- Merkle trees as the two whitelist contracts verify them ----------
+// both fold the proof with sorted-pair hashing from the hashed leaf string;
+// whitelist-merkletree: SHA-256 (32 bytes); tiered-whitelist-merkletree: BLAKE3
+// truncated to 16 bytes
+mod mtree {
+    use sha2::{Digest, Sha256};
+    #[derive(Clone, Copy)]
+    pub enum Hasher {
+        Sha256,
+        Blake3x16,
+    }
+    impl Hasher {
+        pub fn h(&self, data: &[u8]) -> Vec<u8> {
+            match self {
+                Hasher::Sha256 => Sha256::digest(data).to_vec(),
+                Hasher::Blake3x16 => blake3::hash(data).as_bytes()[..16].to_vec(),
+            }
+        }
+    }
+    pub struct Tree {
+        pub root: String,
+        pub leaves: Vec<String>,
+        pub proofs: Vec<Vec<String>>,
+    }
+    pub fn build(h: Hasher, leaves: &[String]) -> Tree {
+        if leaves.is_empty() {
+            return Tree { root: hex::encode(h.h(b"#empty-tree")), leaves: vec![], proofs: vec![] };
+        }
+        let mut layer: Vec<Vec<u8>> = leaves.iter().map(|l| h.h(l.as_bytes())).collect();
+        let mut idx: Vec<usize> = (0..leaves.len()).collect();
+        let mut proofs: Vec<Vec<String>> = vec![vec![]; leaves.len()];
+        while layer.len() > 1 {
+            for (k, i) in idx.iter_mut().enumerate() {
+                let sib = *i ^ 1;
+                if sib < layer.len() {
+                    proofs[k].push(hex::encode(&layer[sib]));
+                }
+                *i /= 2;
+            }
+            let mut next = vec![];
+            let mut j = 0;
+            while j < layer.len() {
+                if j + 1 < layer.len() {
+                    let (a, b) = if layer[j] <= layer[j + 1] { (&layer[j], &layer[j + 1]) } else { (&layer[j + 1], &layer[j]) };
+                    let mut cat = a.clone();
+                    cat.extend_from_slice(b);
+                    next.push(h.h(&cat));
+                } else {
+                    // odd node: the contracts only fold the proof, so promoting it unchanged is a valid tree;
+                    // but then its proof must not list a sibling at this level (handled above: sib >= len)
+                    next.push(layer[j].clone());
+                }
+                j += 2;
+            }
+            layer = next;
+        }
+        Tree { root: hex::encode(&layer[0]), leaves: leaves.to_vec(), proofs }
+    }
+    impl Tree {
+        pub fn proof(&self, leaf: &str) -> Option<Vec<String>> {
+            self.leaves.iter().position(|l| l == leaf).map(|i| self.proofs[i].clone())
+        }
+    }
+}
+
+/// the leaf string a Merkle minter asks about (contract: format!("{stage}{sender}{allocation}") with absent parts omitted)
+fn leaf(stage: Option<u32>, who: &str, alloc: Option<u32>) -> String {
+    format!("{}{}{}", stage.map(|s| s.to_string()).unwrap_or_default(), who, alloc.map(|a| a.to_string()).unwrap_or_default())
+}
+
+// ---------- whitelist specifications ----------
+#[derive(Clone, Debug, Serialize, Deserialize, PartialEq)]
+pub struct StageSpec {
+    pub start: u64, // seconds after world creation
+    pub end: u64,
+    pub limit: u32,
+    pub cap: Option<u32>,
+    /// (address, n): n = flex mint_count / Merkle allocation (0 = a leaf without allocation)
+    pub members: Vec<(String, u32)>,
+}
+#[derive(Clone, Debug, Serialize, Deserialize, PartialEq)]
+pub struct WlSpec {
+    /// plain | tiered | flex | tiered-flex | merkle | tiered-merkle
+    pub kind: String,
+    pub price: u128,
+    pub ibc: bool,
+    pub stages: Vec<StageSpec>,
+}
+/// the minter family member a case runs on: 0..=5 the vending minters, 6..=8 the open-edition minters
+#[derive(Clone, Copy, Debug)]
+pub struct Fam {
+    pub name: &'static str,
+    pub flex: bool,
+    pub merkle: bool,
+    pub oe: bool,
+}
+pub fn fam(variant: usize) -> Fam {
+    if variant < 6 {
+        let v = VARIANTS[variant];
+        Fam { name: v.name, flex: v.flex, merkle: v.merkle, oe: false }
+    } else {
+        let v = OE_VARIANTS[variant - 6];
+        Fam { name: v.name, flex: v.flex, merkle: v.merkle, oe: true }
+    }
+}
+fn is_tiered(k: &str) -> bool {
+    k.starts_with("tiered")
+}
+fn is_flex(k: &str) -> bool {
+    k.ends_with("flex")
+}
+fn is_merkle(k: &str) -> bool {
+    k.ends_with("merkle")
+}
+impl WlSpec {
+    fn stage_leaves(&self, i: usize) -> Vec<String> {
+        let tiered = is_tiered(&self.kind);
+        self.stages[i]
+            .members
+            .iter()
+            .map(|(a, n)| leaf(if tiered { Some(i as u32) } else { None }, a, if *n > 0 { Some(*n) } else { None }))
+            .collect()
+    }
+    fn tree(&self, i: usize) -> mtree::Tree {
+        let h = if is_tiered(&self.kind) { mtree::Hasher::Blake3x16 } else { mtree::Hasher::Sha256 };
+        mtree::build(h, &self.stage_leaves(i))
+    }
+    fn msg(&self, t0: u64) -> (Value, u128) {
+        let denom = if self.ibc { IBC } else { NATIVE };
+        let t = |secs: u64| json!((t0 + secs * 1_000_000_000).to_string());
+        let price = json!({"amount": self.price.to_string(), "denom": denom});
+        let s0 = &self.stages[0];
+        let addrs = |s: &StageSpec| s.members.iter().map(|m| json!(m.0)).collect::<Vec<_>>();
+        let flexm = |s: &StageSpec| s.members.iter().map(|m| json!({"address": m.0, "mint_count": m.1})).collect::<Vec<_>>();
+        let stages = |with_limit: bool| -> Vec<Value> {
+            self.stages
+                .iter()
+                .enumerate()
+                .map(|(i, s)| {
+                    let mut v = json!({"name": format!("stage{}", i), "start_time": t(s.start), "end_time": t(s.end),
+                        "mint_price": price.clone(), "mint_count_limit": s.cap});
+                    if with_limit {
+                        v["per_address_limit"] = json!(s.limit);
+                    }
+                    v
+                })
+                .collect()
+        };
+        match self.kind.as_str() {
+            "plain" => (
+                json!({"members": addrs(s0), "start_time": t(s0.start), "end_time": t(s0.end), "mint_price": price,
+                    "per_address_limit": s0.limit, "member_limit": 1000, "admins": [CREATOR], "admins_mutable": true}),
+                100_000_000,
+            ),
+            "flex" => (
+                json!({"members": flexm(s0), "start_time": t(s0.start), "end_time": t(s0.end), "mint_price": price,
+                    "member_limit": 1000, "admins": [CREATOR], "admins_mutable": true, "whale_cap": null}),
+                100_000_000,
+            ),
+            "tiered" => (
+                json!({"members": self.stages.iter().map(addrs).collect::<Vec<_>>(), "stages": stages(true),
+                    "member_limit": 1000, "admins": [CREATOR], "admins_mutable": true}),
+                100_000_000,
+            ),
+            "tiered-flex" => (
+                json!({"members": self.stages.iter().map(flexm).collect::<Vec<_>>(), "stages": stages(false),
+                    "member_limit": 1000, "admins": [CREATOR], "admins_mutable": true, "whale_cap": null}),
+                100_000_000,
+            ),
+            "merkle" => (
+                json!({"merkle_root": self.tree(0).root, "merkle_tree_uri": null, "start_time": t(s0.start), "end_time": t(s0.end),
+                    "mint_price": price, "per_address_limit": s0.limit, "admins": [CREATOR], "admins_mutable": true}),
+                1_000_000_000,
+            ),
+            _ => (
+                json!({"stages": stages(true), "merkle_roots": (0..self.stages.len()).map(|i| self.tree(i).root).collect::<Vec<_>>(),
+                    "merkle_tree_uris": null, "admins": [CREATOR], "admins_mutable": true}),
+                1_000_000_000,
+            ),
+        }
+    }
+}
+
+// ---------- case language ----------
+#[derive(Clone, Debug, Serialize, Deserialize, PartialEq)]
+pub enum COp {
+    /// a sale-world op (clock, mints, minter admin ops)
+    S(Op),
+    /// create a whitelist; it becomes the spare one
+    MakeWl(WlSpec),
+    /// minter SetWhitelist{spare}
+    Attach { who: String },
+    /// whitelist admin ops on the whitelist the minter currently points at
+    WlLimit { stage: u32, limit: u32 },
+    WlCap { stage: u32, cap: Option<u32> },
+    WlAdd { stage: u32, who: String, count: u32 },
+    WlRemove { stage: u32, who: String },
+    /// the admin airdrops (MintTo) until nothing is mintable
+    SellOut,
+    /// an open-edition-only op (UpdateEndTime ...); ignored on the vending minters
+    E(OeOp),
+}
+
+/// whitelist the minter is created with (built by the sale world's own helper)
+#[derive(Clone, Debug, Serialize, Deserialize, PartialEq)]
+pub struct InitWl {
+    pub kind: String, // plain | tiered | flex | tiered-flex
+    pub windows: Vec<(u64, u64)>,
+    pub limit: u32,
+    pub cap: Option<u32>,
+    pub flex_count: u32,
+    pub members: Vec<String>,
+    pub price: u128,
+}
+
+#[derive(Clone, Debug, Serialize, Deserialize)]
+pub struct Case {
+    pub tag: String,
+    pub variant: usize,
+    pub num_tokens: u32,
+    pub pal: u32,
+    pub price: u128,
+    pub start_in: u64,
+    pub init_wl: Option<InitWl>,
+    /// open edition: end time (seconds after creation) and "no num_tokens"
+    #[serde(default)]
+    pub end_in: Option<u64>,
+    #[serde(default)]
+    pub unlimited: bool,
+    pub ops: Vec<COp>,
+}
+
+fn leak(s: &str) -> &'static str {
+    match s {
+        "buyer1" => "buyer1",
+        "buyer2" => "buyer2",
+        "buyer3" => "buyer3",
+        "stranger" => "stranger",
+        _ => "creator",
+    }
+}
+
+fn cfg_of(c: &Case) -> SaleCfg {
+    let mut cfg = SaleCfg::basic(c.variant);
+    cfg.num_tokens = c.num_tokens;
+    cfg.pal = c.pal;
+    cfg.price = c.price;
+    cfg.start_in_secs = c.start_in;
+    if let Some(i) = &c.init_wl {
+        cfg.wl = match i.kind.as_str() {
+            "plain" => WlKind::Plain,
+            "tiered" => WlKind::Tiered,
+            "flex" => WlKind::Flex,
+            _ => WlKind::TieredFlex,
+        };
+        cfg.wl_windows = i.windows.clone();
+        cfg.wl_price = i.price;
+        cfg.wl_limit = i.limit;
+        cfg.wl_stage_limit = i.cap;
+        cfg.wl_members = i.members.iter().map(|m| leak(m)).collect();
+        cfg.wl_flex_count = i.flex_count;
+    }
+    cfg
+}
+
+pub struct CaseResult {
+    pub coq: Option<String>,
+    pub steps: u64,
+    pub ok_steps: u64,
+    pub ok_mints: u64,
+    pub violations: Vec<(String, String)>,
+    pub hist: BTreeMap<String, u64>,
+}
+
+fn op_kind(op: &COp) -> &'static str {
+    match op {
+        COp::S(Op::Mint { .. }) => "mint",
+        COp::S(Op::MintM { proof, allocation, .. }) => match (proof.is_some(), allocation.is_some()) {
+            (true, true) => "mint_proof_alloc",
+            (true, false) => "mint_proof",
+            (false, true) => "mint_alloc_noproof",
+            (false, false) => "mint_merkle_bare",
+        },
+        COp::S(Op::MintTo { .. }) => "mint_to",
+        COp::S(Op::MintFor { .. }) => "mint_for",
+        COp::S(Op::Purge { .. }) => "purge",
+        COp::S(Op::UpdatePerAddressLimit { .. }) => "update_per_address_limit",
+        COp::S(Op::UpdateStartTime { .. }) => "update_start_time",
+        COp::S(Op::Shuffle { .. }) => "shuffle",
+        COp::S(Op::BurnRemaining { .. }) => "burn_remaining",
+        COp::S(_) => "other",
+        COp::MakeWl(_) => "make_whitelist",
+        COp::Attach { .. } => "set_whitelist",
+        COp::WlLimit { .. } => "wl_update_limit",
+        COp::WlCap { .. } => "wl_update_stage_cap",
+        COp::WlAdd { .. } => "wl_add_member",
+        COp::WlRemove { .. } => "wl_remove_member",
+        COp::SellOut => "mint_to",
+        COp::E(OeOp::UpdateEndTime { .. }) => "update_end_time",
+        COp::E(_) => "other",
+    }
+}
+
+fn q(app: &chain::App, a: &str, m: Value) -> Option<Value> {
+    app.wrap().query_wasm_smart::<Value>(Addr::unchecked(a), &m).ok()
+}
+
+/// what the contracts say right before a mint (monitor input; the property's "in force")
+struct Pre {
+    pal: u64,
+    wl: Option<String>,
+    active: bool,
+    wl_limit: Option<u64>,
+    stage_id: Option<u64>,
+    stage_cap: Option<Option<u64>>,
+    member_count: Option<u64>,
+    /// None = the minter keeps no count of remaining tokens (open edition without num_tokens)
+    mintable: Option<u64>,
+    end_time: Option<u64>,
+    now: u64,
+}
+fn snapshot(app: &chain::App, c: &Value, mintable: Option<u64>, who: &str) -> Pre {
+    let wl = c["whitelist"].as_str().map(|s| s.to_string());
+    let mut p = Pre {
+        pal: c["per_address_limit"].as_u64().unwrap_or(0),
+        wl: wl.clone(),
+        active: false,
+        wl_limit: None,
+        stage_id: None,
+        stage_cap: None,
+        member_count: None,
+        mintable,
+        end_time: c.get("end_time").and_then(|x| x.as_str()).and_then(|x| x.parse().ok()),
+        now: chain::now(app),
+    };
+    if let Some(a) = &wl {
+        if let Some(wc) = q(app, a, json!({"config": {}})) {
+            p.active = wc["is_active"].as_bool().unwrap_or(false);
+            p.wl_limit = wc.get("per_address_limit").and_then(|x| x.as_u64());
+        }
+        p.stage_id = q(app, a, json!({"active_stage_id": {}})).and_then(|v| v.as_u64());
+        if let Some(id) = p.stage_id {
+            if id >= 1 {
+                p.stage_cap = q(app, a, json!({"stage": {"stage_id": id - 1}})).map(|v| v["stage"]["mint_count_limit"].as_u64());
+            }
+        }
+        p.member_count = q(app, a, json!({"member": {"member": who}})).and_then(|v| v["mint_count"].as_u64());
+    }
+    p
+}
+
+/// The monitors: recount of the successful mints from the trace, compared with the limit /
+/// entitlement in force before each success and with MintCount.  Written from the property text;
+/// knows the whitelists only through their queries and the harness' own knowledge of the trees.
+struct Mon {
+    fam: Fam,
+    specs: BTreeMap<String, WlSpec>, // whitelist address -> what the harness put in it
+    kinds: BTreeMap<String, String>,
+    pub_since: BTreeMap<String, u64>, // public mints initiated (incl. admin MintTo/MintFor)
+    pub_own: BTreeMap<String, u64>,   // public Mint calls completed
+    wl_by: BTreeMap<(String, String, u64), u64>, // (whitelist, address, stage slot) -> mints
+    wl_sum: BTreeMap<String, u64>,
+    stage_by: BTreeMap<(String, u64), u64>,
+    purged: bool,
+    violations: Vec<(String, String)>,
+}
+impl Mon {
+    fn new(fam: Fam) -> Mon {
+        Mon {
+            fam,
+            specs: BTreeMap::new(),
+            kinds: BTreeMap::new(),
+            pub_since: BTreeMap::new(),
+            pub_own: BTreeMap::new(),
+            wl_by: BTreeMap::new(),
+            wl_sum: BTreeMap::new(),
+            stage_by: BTreeMap::new(),
+            purged: false,
+            violations: vec![],
+        }
+    }
+    fn mint_ok(&mut self, who: &str, p: &Pre, m_stage: Option<u32>, m_proof: bool, m_alloc: Option<u32>, desc: &str) {
+        let vname = self.fam.name;
+        if p.wl.is_some() && p.active {
+            // ---- a whitelist mint: entitlement in force, from the whitelist's own answers ----
+            let wl = p.wl.clone().unwrap();
+            let k = self.kinds.get(&wl).cloned().unwrap_or_default();
+            let slot = if is_tiered(&k) { p.stage_id.unwrap_or(99) } else { 0 };
+            let proven = is_merkle(&k)
+                && m_proof
+                && self.specs.get(&wl).map_or(false, |sp| {
+                    let i = if is_tiered(&k) { p.stage_id.unwrap_or(0).saturating_sub(1) as usize } else { 0 };
+                    i < sp.stages.len() && sp.stage_leaves(i).contains(&leaf(m_stage, who, m_alloc))
+                });
+            let ent: u64 = if is_flex(&k) {
+                p.member_count.unwrap_or(0)
+            } else if is_merkle(&k) {
+                if !proven {
+                    0
+                } else {
+                    m_alloc.map(|a| a as u64).unwrap_or(p.wl_limit.unwrap_or(0))
+                }
+            } else {
+                p.wl_limit.unwrap_or(0)
+            };
+            let n = self.wl_by.entry((wl.clone(), who.to_string(), slot)).or_insert(0);
+            *n += 1;
+            let n = *n;
+            *self.wl_sum.entry(who.to_string()).or_insert(0) += 1;
+            if n > ent {
+                let unproven = self.fam.merkle && m_alloc.is_some() && !proven;
+                let key = if unproven { "C03:merkle-unproven-allocation" } else { "C03:whitelist-entitlement-exceeded" };
+                self.violations.push((
+                    key.into(),
+                    format!("{} + {} whitelist: {} completed whitelist mint #{} (stage slot {}) with entitlement {} in force ({})", vname, k, who, n, slot, ent, desc),
+                ));
+            }
+            if is_tiered(&k) {
+                let t = self.stage_by.entry((wl.clone(), slot)).or_insert(0);
+                *t += 1;
+                if let Some(Some(cap)) = p.stage_cap {
+                    if *t > cap {
+                        self.violations.push((
+                            "C03:stage-limit-exceeded".into(),
+                            format!("{} + {} whitelist: mint #{} in stage {} whose mint_count_limit is {}", vname, k, t, slot, cap),
+                        ));
+                    }
+                }
+            }
+        } else {
+            // ---- a public mint ----
+            let n = self.pub_own.entry(who.to_string()).or_insert(0);
+            *n += 1;
+            let n = *n;
+            *self.pub_since.entry(who.to_string()).or_insert(0) += 1;
+            if n > p.pal {
+                self.violations.push((
+                    "C03:public-limit-exceeded".into(),
+                    format!("{}: {} completed public mint #{} with per-address limit {} in force", vname, who, n, p.pal),
+                ));
+            }
+        }
+    }
+    fn airdrop_ok(&mut self, who: &str) {
+        *self.pub_since.entry(who.to_string()).or_insert(0) += 1;
+    }
+    /// a purge may clear the counts only once nothing can be minted any more: sold out, or past the end time
+    fn purge_ok(&mut self, p: &Pre) {
+        let sold_out = p.mintable == Some(0);
+        let ended = p.end_time.map_or(false, |e| p.now >= e); // from the end time on nothing can be minted
+        if !sold_out && !ended {
+            self.violations.push((
+                "C03:purge-before-sell-out".into(),
+                format!("{}: Purge succeeded with {:?} tokens still mintable and the sale not ended", self.fam.name, p.mintable),
+            ));
+        }
+        self.purged = true;
+    }
+    /// reported counts = mints initiated (until a purge after the sale clears them)
+    fn counts(&mut self, reported: &[(String, (u64, u64))], desc: &str) {
+        if self.purged {
+            return;
+        }
+        for (a, (cnt, wlc)) in reported {
+            let p = *self.pub_since.get(a).unwrap_or(&0);
+            let wsum = *self.wl_sum.get(a).unwrap_or(&0);
+            let want = if self.fam.flex { (p, wsum) } else { (p + wsum, 0) };
+            if (*cnt, *wlc) != want {
+                self.violations.push((
+                    "C03:mint-count-mismatch".into(),
+                    format!("{}: after {}: MintCount({}) = ({}, {}) but the trace has {} public and {} whitelist mints initiated", self.fam.name, desc, a, cnt, wlc, p, wsum),
+                ));
+            }
+        }
+    }
+}
+
+/// money moved by something that is not a minter step (whitelist creation fees): the model only follows
+/// the minter's own flows, so the sale world subtracts this drift from the balances it shows
+fn record_drift(w: &mut SaleWorld, before: &BTreeMap<(String, String), u128>) {
+    for (k, v1) in w.balances_raw() {
+        let v0 = before.get(&k).copied().unwrap_or(0);
+        if v1 != v0 {
+            *w.ext_drift.entry(k).or_insert(0) += v1 as i128 - v0 as i128;
+        }
+    }
+}
+
+/// SetWhitelist{addr} as a recorded minter step (same record layout as SaleWorld::run)
+fn attach_step(w: &mut SaleWorld, who: &str, a: &Addr) -> StepOut {
+    let now = chain::now(&w.app);
+    w.proof_ctx = None;
+    let fp = w.fp_coq();
+    let wv = w.cur_wl_view(who);
+    let before_digest = chain::storage_digest(&w.app, &w.minter);
+    let sender_id = w.addrs.id(who);
+    let minter_id = w.addrs.id(w.minter.clone().as_str());
+    let env = format!("(mkEnv {} {} [] {})", now, sender_id, minter_id);
+    let new_view = w.wl_view(a, who);
+    let m = w.minter.clone();
+    let res = chain::exec(&mut w.app, who, &m, &json!({"set_whitelist": {"whitelist": a.to_string()}}), &[]);
+    let ok = res.is_ok();
+    let coq_op = format!("(OSetWhitelist true {} {})", w.addrs.id(a.as_str()), new_view.unwrap_or("None".into()));
+    let wv_after = w.cur_wl_view(who);
+    let obs = w.observe();
+    let obs_coq = coq_list(&obs.iter().map(|x| x.to_string()).collect::<Vec<_>>());
+    let bal = w.balances_coq();
+    let coq = format!("(mkStep {} {} {} {} {} None {} {} {})", env, fp, wv, coq_op, coq_bool(ok), wv_after, obs_coq, bal);
+    let mut err = res.err();
+    if !ok && chain::storage_digest(&w.app, &w.minter) != before_digest {
+        err = Some(format!("STATE-CHANGED-ON-FAILURE: {}", err.unwrap_or_default()));
+    }
+    StepOut { coq: Some(coq), ok, err, minted: None, is_minter_step: true }
+}
+
+/// the same for the open-edition world (record layout of OeWorld::run)
+fn attach_step_oe(w: &mut OeWorld, who: &str, a: &Addr) -> StepOut {
+    let now = chain::now(&w.app);
+    w.proof_ctx = None;
+    let new_view = w.wl_view(a, who);
+    let fp = w.fp_coq();
+    let wv = w.cur_wl_view(who);
+    let before_digest = chain::storage_digest(&w.app, &w.minter);
+    let sender_id = w.addrs.id(who);
+    let minter_id = w.addrs.id(w.minter.clone().as_str());
+    let env = format!("(mkEnv {} {} [] {})", now, sender_id, minter_id);
+    let m = w.minter.clone();
+    let res = chain::exec(&mut w.app, who, &m, &json!({"set_whitelist": {"whitelist": a.to_string()}}), &[]);
+    let ok = res.is_ok();
+    let coq_op = format!("(ESetWhitelist true {} {})", w.addrs.id(a.as_str()), new_view.unwrap_or("None".into()));
+    let wv_after = w.cur_wl_view(who);
+    let obs = w.observe();
+    let obs_coq = coq_list(&obs.iter().map(|x| x.to_string()).collect::<Vec<_>>());
+    let bal = w.balances_coq();
+    let coq = format!("(mkOStep {} {} {} {} {} None {} {} {})", env, fp, wv, coq_op, coq_bool(ok), wv_after, obs_coq, bal);
+    let mut err = res.err();
+    if !ok && chain::storage_digest(&w.app, &w.minter) != before_digest {
+        err = Some(format!("STATE-CHANGED-ON-FAILURE: {}", err.unwrap_or_default()));
+    }
+    StepOut { coq: Some(coq), ok, err, minted: None, is_minter_step: true }
+}
+
+fn wl_admin_msg(cop: &COp, k: &str) -> Value {
+    match cop {
+        COp::WlLimit { stage, limit } => {
+            if is_tiered(k) {
+                json!({"update_stage_config": {"stage_id": stage, "name": null, "start_time": null, "end_time": null,
+                    "mint_price": null, "per_address_limit": limit, "mint_count_limit": null}})
+            } else {
+                json!({"update_per_address_limit": limit})
+            }
+        }
+        COp::WlCap { stage, cap } => json!({"update_stage_config": {"stage_id": stage, "name": null, "start_time": null,
+            "end_time": null, "mint_price": null, "per_address_limit": null, "mint_count_limit": Some(cap)}}),
+        COp::WlAdd { stage, who, count } => {
+            let m = if is_flex(k) { json!([{"address": who, "mint_count": count}]) } else { json!([who]) };
+            if is_tiered(k) {
+                json!({"add_members": {"to_add": m, "stage_id": stage}})
+            } else {
+                json!({"add_members": {"to_add": m}})
+            }
+        }
+        COp::WlRemove { stage, who } => {
+            if is_tiered(k) {
+                json!({"remove_members": {"to_remove": [who], "stage_id": stage}})
+            } else {
+                json!({"remove_members": {"to_remove": [who]}})
+            }
+        }
+        _ => json!({}),
+    }
+}
+fn wl_code_key(kind: &str) -> &'static str {
+    match kind {
+        "plain" => "plain",
+        "tiered" => "tiered",
+        "flex" => "flex",
+        "tiered-flex" => "tiered-flex",
+        "merkle" => "merkle",
+        _ => "tiered-merkle",
+    }
+}
+fn dbg_err(vname: &str, kind_now: &str, cop: &COp, e: &str) {
+    if std::env::var("C03_DEBUG").is_ok() {
+        eprintln!("ERR {} [{}] {}: {}", vname, kind_now, op_kind(cop), e.lines().last().unwrap_or("").chars().take(220).collect::<String>());
+    }
+}
+
+pub fn run_case(c: &Case) -> CaseResult {
+    if c.variant >= 6 {
+        run_case_oe(c)
+    } else {
+        run_case_vending(c)
+    }
+}
+
+fn run_case_vending(c: &Case) -> CaseResult {
+    let mut res = CaseResult { coq: None, steps: 0, ok_steps: 0, ok_mints: 0, violations: vec![], hist: BTreeMap::new() };
+    let f = fam(c.variant);
+    let vname = f.name;
+    let init_kind = c.init_wl.as_ref().map(|i| i.kind.clone()).unwrap_or("none".into());
+    let mut w = match SaleWorld::new(cfg_of(c)) {
+        Ok(w) => w,
+        Err(e) => {
+            if std::env::var("C03_DEBUG").is_ok() {
+                eprintln!("create failed: {} {}: {}", vname, init_kind, e);
+            }
+            *res.hist.entry(format!("{}:create[{}]:err", vname, init_kind)).or_insert(0) += 1;
+            return res;
+        }
+    };
+    *res.hist.entry(format!("{}:create[{}]:ok", vname, init_kind)).or_insert(0) += 1;
+    let init = w.init_state_coq();
+    let init_bal = w.balances_coq();
+    let mut steps: Vec<String> = vec![];
+    let mut mon = Mon::new(f);
+    if let (Some(a), Some(i)) = (w.whitelist.clone(), &c.init_wl) {
+        mon.kinds.insert(a.to_string(), i.kind.clone());
+    }
+    let mut spare: Option<Addr> = None;
+    let accounts = w.count_accounts();
+    let mut pending: Vec<COp> = c.ops.iter().rev().cloned().collect();
+    let mut sellout_budget = c.num_tokens + 2;
+    while let Some(cop_owned) = pending.pop() {
+        let cop = &cop_owned;
+        if let COp::SellOut = cop {
+            if w.mintable() > 0 && sellout_budget > 0 {
+                sellout_budget -= 1;
+                pending.push(COp::SellOut);
+                pending.push(COp::S(Op::MintTo { who: CREATOR.into(), recipient: BUYERS[1].into(), funds: vec![] }));
+            }
+            continue;
+        }
+        let kind_now: String = w.minter_config()["whitelist"].as_str().and_then(|a| mon.kinds.get(a).cloned()).unwrap_or("none".into());
+        let hkey = |ok: bool| format!("{}[{}]:{}:{}", vname, kind_now, op_kind(cop), if ok { "ok" } else { "err" });
+        let out = match cop {
+            COp::MakeWl(sp) => {
+                let (msg, fee) = sp.msg(w.t0);
+                let before = w.balances_raw();
+                let r = w.make_whitelist_raw(wl_code_key(&sp.kind), &msg, fee);
+                record_drift(&mut w, &before);
+                *res.hist.entry(hkey(r.is_ok())).or_insert(0) += 1;
+                if let Ok(a) = r {
+                    mon.specs.insert(a.to_string(), sp.clone());
+                    mon.kinds.insert(a.to_string(), sp.kind.clone());
+                    spare = Some(a);
+                }
+                continue;
+            }
+            COp::WlLimit { .. } | COp::WlCap { .. } | COp::WlAdd { .. } | COp::WlRemove { .. } => {
+                let Some(a) = w.minter_config()["whitelist"].as_str().map(|s| s.to_string()) else { continue };
+                let k = mon.kinds.get(&a).cloned().unwrap_or_default();
+                let msg = wl_admin_msg(cop, &k);
+                let before = w.balances_raw();
+                let r = chain::exec(&mut w.app, CREATOR, &Addr::unchecked(a), &msg, &[]);
+                record_drift(&mut w, &before);
+                *res.hist.entry(hkey(r.is_ok())).or_insert(0) += 1;
+                continue;
+            }
+            COp::Attach { who } => {
+                let Some(a) = spare.clone() else { continue };
+                attach_step(&mut w, who, &a)
+            }
+            COp::SellOut => unreachable!(),
+            COp::E(_) => continue,
+            COp::S(op) => {
+                let pre = match op {
+                    Op::Mint { who, .. } | Op::MintM { who, .. } | Op::MintTo { who, .. } | Op::MintFor { who, .. } | Op::Purge { who } => {
+                        Some((who.clone(), snapshot(&w.app, &w.minter_config(), Some(w.mintable()), who)))
+                    }
+                    _ => None,
+                };
+                let out = w.run(op);
+                if out.ok {
+                    match (op, &pre) {
+                        (Op::Mint { .. }, Some((who, p))) => {
+                            res.ok_mints += 1;
+                            mon.mint_ok(who, p, None, false, None, &format!("{:?}", op));
+                        }
+                        (Op::MintM { stage, proof, allocation, .. }, Some((who, p))) => {
+                            res.ok_mints += 1;
+                            mon.mint_ok(who, p, *stage, proof.is_some(), *allocation, &format!("{:?}", op));
+                        }
+                        (Op::MintTo { .. } | Op::MintFor { .. }, Some((who, _))) => mon.airdrop_ok(who),
+                        (Op::Purge { .. }, Some((_, p))) => mon.purge_ok(p),
+                        _ => {}
+                    }
+                }
+                out
+            }
+        };
+        if !out.is_minter_step {
+            continue;
+        }
+        res.steps += 1;
+        if out.ok {
+            res.ok_steps += 1;
+        }
+        *res.hist.entry(hkey(out.ok)).or_insert(0) += 1;
+        if let Some(s) = out.coq {
+            steps.push(s);
+        }
+        if let Some(e) = &out.err {
+            dbg_err(vname, &kind_now, cop, e);
+            if e.starts_with("STATE-CHANGED-ON-FAILURE") {
+                mon.violations.push(("C03:failed-call-changed-state".into(), format!("{}: {:?}: {}", vname, cop, e)));
+            }
+        }
+        let reported: Vec<(String, (u64, u64))> = accounts.iter().map(|a| (a.clone(), w.mint_count(a))).collect();
+        mon.counts(&reported, &format!("{:?}", cop));
+        if mon.violations.len() > 5 {
+            break;
+        }
+    }
+    res.violations = mon.violations;
+    res.coq = Some(case_coq(&mut w, &init, &init_bal, &steps));
+    res
+}
+
+const OE_AIRDROP: u128 = 40;
+
+fn run_case_oe(c: &Case) -> CaseResult {
+    let mut res = CaseResult { coq: None, steps: 0, ok_steps: 0, ok_mints: 0, violations: vec![], hist: BTreeMap::new() };
+    let f = fam(c.variant);
+    let vname = f.name;
+    let mut cfg = OeCfg::basic(c.variant - 6);
+    cfg.fp.max_token_limit = 100;
+    cfg.fp.airdrop_price = OE_AIRDROP;
+    cfg.num_tokens = if c.unlimited { None } else { Some(c.num_tokens) };
+    cfg.end_in_secs = c.end_in;
+    cfg.pal = c.pal;
+    cfg.price = c.price;
+    cfg.start_in_secs = c.start_in;
+    let mut w = match OeWorld::new(cfg) {
+        Ok(w) => w,
+        Err(e) => {
+            if std::env::var("C03_DEBUG").is_ok() {
+                eprintln!("create failed: {}: {}", vname, e);
+            }
+            *res.hist.entry(format!("{}:create[none]:err", vname)).or_insert(0) += 1;
+            return res;
+        }
+    };
+    *res.hist.entry(format!("{}:create[none]:ok", vname)).or_insert(0) += 1;
+    let mut mon = Mon::new(f);
+    // the open-edition world has no drift bookkeeping: every whitelist of the case is created (and paid
+    // for) right now, before the initial balance snapshot; stage times are absolute anyway
+    let mut made: Vec<Option<Addr>> = vec![];
+    for cop in &c.ops {
+        if let COp::MakeWl(sp) = cop {
+            let (msg, fee) = sp.msg(w.t0);
+            let code_id = w.wl_code[wl_code_key(&sp.kind)];
+            let r = crate::util::catch(|| {
+                w.app.instantiate_contract(code_id, Addr::unchecked(CREATOR), &msg, &[cosmwasm_std::coin(fee, NATIVE)], "wl", None)
+            });
+            let a = match r {
+                Ok(Ok(a)) => Some(a),
+                _ => None,
+            };
+            *res.hist.entry(format!("{}[none]:make_whitelist:{}", vname, if a.is_some() { "ok" } else { "err" })).or_insert(0) += 1;
+            if let Some(a) = &a {
+                w.addrs.id(a.as_str());
+                mon.specs.insert(a.to_string(), sp.clone());
+                mon.kinds.insert(a.to_string(), sp.kind.clone());
+            }
+            made.push(a);
+        }
+    }
+    let init = w.init_state_coq();
+    let init_bal = w.balances_coq();
+    let mut steps: Vec<String> = vec![];
+    let mut spare: Option<Addr> = None;
+    let mut made_i = 0usize;
+    let accounts = w.count_accounts();
+    let mut pending: Vec<COp> = c.ops.iter().rev().cloned().collect();
+    let mut sellout_budget = c.num_tokens + 2;
+    while let Some(cop_owned) = pending.pop() {
+        let cop = &cop_owned;
+        if let COp::SellOut = cop {
+            if w.mintable().map_or(false, |m| m > 0) && sellout_budget > 0 {
+                sellout_budget -= 1;
+                pending.push(COp::SellOut);
+                pending.push(COp::S(Op::MintTo { who: CREATOR.into(), recipient: BUYERS[1].into(), funds: native(OE_AIRDROP) }));
+            }
+            continue;
+        }
+        let kind_now: String = w.minter_config()["whitelist"].as_str().and_then(|a| mon.kinds.get(a).cloned()).unwrap_or("none".into());
+        let hkey = |ok: bool| format!("{}[{}]:{}:{}", vname, kind_now, op_kind(cop), if ok { "ok" } else { "err" });
+        let oe_op: Option<OeOp> = match cop {
+            COp::MakeWl(_) => {
+                spare = made.get(made_i).cloned().flatten();
+                made_i += 1;
+                continue;
+            }
+            COp::WlLimit { .. } | COp::WlCap { .. } | COp::WlAdd { .. } | COp::WlRemove { .. } => {
+                let Some(a) = w.minter_config()["whitelist"].as_str().map(|s| s.to_string()) else { continue };
+                let k = mon.kinds.get(&a).cloned().unwrap_or_default();
+                let msg = wl_admin_msg(cop, &k);
+                let r = chain::exec(&mut w.app, CREATOR, &Addr::unchecked(a), &msg, &[]);
+                *res.hist.entry(hkey(r.is_ok())).or_insert(0) += 1;
+                continue;
+            }
+            COp::Attach { .. } => None,
+            COp::SellOut => unreachable!(),
+            COp::E(op) => Some(op.clone()),
+            COp::S(op) => match op {
+                Op::At { secs, nanos } => Some(OeOp::At { secs: *secs, nanos: *nanos }),
+                Op::Mint { who, funds } => Some(OeOp::MintM { who: who.clone(), funds: funds.clone(), stage: None, proof: None, allocation: None }),
+                Op::MintM { who, funds, stage, proof, allocation } => {
+                    Some(OeOp::MintM { who: who.clone(), funds: funds.clone(), stage: *stage, proof: proof.clone(), allocation: *allocation })
+                }
+                Op::MintTo { who, recipient, funds } => Some(OeOp::MintTo { who: who.clone(), recipient: recipient.clone(), funds: funds.clone() }),
+                Op::Purge { who } => Some(OeOp::Purge { who: who.clone() }),
+                Op::BurnRemaining { who } => Some(OeOp::BurnRemaining { who: who.clone() }),
+                Op::UpdatePerAddressLimit { who, limit } => Some(OeOp::UpdatePerAddressLimit { who: who.clone(), limit: *limit }),
+                _ => continue,
+            },
+        };
+        let out = match (&oe_op, cop) {
+            (None, COp::Attach { who }) => {
+                let Some(a) = spare.clone() else { continue };
+                attach_step_oe(&mut w, who, &a)
+            }
+            (Some(op), _) => {
+                let pre = match op {
+                    OeOp::MintM { who, .. } | OeOp::MintTo { who, .. } | OeOp::Purge { who } => {
+                        Some((who.clone(), snapshot(&w.app, &w.minter_config(), w.mintable(), who)))
+                    }
+                    _ => None,
+                };
+                let out = w.run(op);
+                if out.ok {
+                    match (op, &pre) {
+                        (OeOp::MintM { stage, proof, allocation, .. }, Some((who, p))) => {
+                            res.ok_mints += 1;
+                            let (st, pr, al) = if f.merkle { (*stage, proof.is_some(), *allocation) } else { (None, false, None) };
+                            mon.mint_ok(who, p, st, pr, al, &format!("{:?}", op));
+                        }
+                        (OeOp::MintTo { .. }, Some((who, _))) => mon.airdrop_ok(who),
+                        (OeOp::Purge { .. }, Some((_, p))) => mon.purge_ok(p),
+                        _ => {}
+                    }
+                }
+                out
+            }
+            _ => continue,
+        };
+        if !out.is_minter_step {
+            continue;
+        }
+        res.steps += 1;
+        if out.ok {
+            res.ok_steps += 1;
+        }
+        *res.hist.entry(hkey(out.ok)).or_insert(0) += 1;
+        if let Some(s) = out.coq {
+            steps.push(s);
+        }
+        if let Some(e) = &out.err {
+            dbg_err(vname, &kind_now, cop, e);
+            if e.starts_with("STATE-CHANGED-ON-FAILURE") {
+                mon.violations.push(("C03:failed-call-changed-state".into(), format!("{}: {:?}: {}", vname, cop, e)));
+            }
+        }
+        let reported: Vec<(String, (u64, u64))> = accounts.iter().map(|a| (a.clone(), w.mint_count(a))).collect();
+        mon.counts(&reported, &format!("{:?}", cop));
+        if mon.violations.len() > 5 {
+            break;
+        }
+    }
+    res.violations = mon.violations;
+    res.coq = Some(w.case_coq(&init, &init_bal, &steps));
+    res
+}
+
+// ---------- builders ----------
+fn native(a: u128) -> Vec<(String, u128)> {
+    vec![(NATIVE.to_string(), a)]
+}
+fn at(secs: u64, nanos: i64) -> COp {
+    COp::S(Op::At { secs, nanos })
+}
+fn mint(who: &str, amt: u128) -> COp {
+    COp::S(Op::Mint { who: who.into(), funds: native(amt) })
+}
+fn mintm(who: &str, amt: u128, stage: Option<u32>, proof: Option<Vec<String>>, allocation: Option<u32>) -> COp {
+    COp::S(Op::MintM { who: who.into(), funds: native(amt), stage, proof, allocation })
+}
+fn junk_proof(tiered: bool) -> Vec<String> {
+    vec![if tiered { "ab".repeat(16) } else { "cd".repeat(32) }]
+}
+
+pub const KINDS: [&str; 6] = ["plain", "tiered", "flex", "tiered-flex", "merkle", "tiered-merkle"];
+fn compatible(v: &Fam, kind: &str) -> bool {
+    if v.flex {
+        is_flex(kind)
+    } else if v.merkle && v.oe {
+        // a proof is mandatory on the open-edition Merkle minter
+        is_merkle(kind)
+    } else if v.merkle {
+        !is_flex(kind)
+    } else {
+        kind == "plain" || kind == "tiered"
+    }
+}
+
+/// one mint by `who` against `sp` (the attached whitelist) with honest arguments for stage index `i`
+fn honest_mint(v: &Fam, sp: &WlSpec, i: usize, who: &str, amt: u128) -> COp {
+    if !v.merkle {
+        return mint(who, amt);
+    }
+    if !is_merkle(&sp.kind) {
+        return mintm(who, amt, None, None, None);
+    }
+    let tiered = is_tiered(&sp.kind);
+    let n = sp.stages[i].members.iter().find(|m| m.0 == who).map(|m| m.1);
+    let st = if tiered { Some(i as u32) } else { None };
+    match n {
+        Some(n) => {
+            let al = if n > 0 { Some(n) } else { None };
+            let pr = sp.tree(i).proof(&leaf(st, who, al));
+            mintm(who, amt, st, pr, al)
+        }
+        // not a member: tries with somebody else's proof and own name
+        None => {
+            let other = sp.stages[i].members.first().cloned();
+            match other {
+                Some((o, n)) => {
+                    let al = if n > 0 { Some(n) } else { None };
+                    mintm(who, amt, st, sp.tree(i).proof(&leaf(st, &o, al)), al)
+                }
+                None => mintm(who, amt, st, Some(vec![]), Some(1)),
+            }
+        }
+    }
+}
+
+/// numbers to declare as `allocation`: every integer literal of the minter / whitelist sources (and its
+/// neighbours) that fits u32, plus the extremes
+fn alloc_pool() -> &'static Vec<u32> {
+    static POOL: std::sync::OnceLock<Vec<u32>> = std::sync::OnceLock::new();
+    POOL.get_or_init(|| {
+        let lits = harvest_literals(&[
+            "contracts/minters/vending-minter-merkle-wl/src/contract.rs",
+            "contracts/minters/vending-minter-merkle-wl-featured/src/contract.rs",
+            "contracts/minters/open-edition-minter-merkle-wl/src/contract.rs",
+            "contracts/whitelists/whitelist/src/contract.rs",
+            "contracts/whitelists/whitelist-merkletree/src/contract.rs",
+            "contracts/whitelists/tiered-whitelist-merkletree/src/contract.rs",
+        ]);
+        let mut v: BTreeSet<u32> = [0u32, 1, 2, 3, 4, 5, 9, u32::MAX - 1, u32::MAX].into_iter().collect();
+        for l in lits {
+            for d in [-1i128, 0, 1] {
+                let x = l as i128 + d;
+                if x >= 0 && x <= u32::MAX as i128 {
+                    v.insert(x as u32);
+                }
+            }
+        }
+        v.into_iter().collect()
+    })
+}
+
+/// adversarial argument menus for a Merkle-variant minter
+fn adversarial_mint(rng: &mut Rng, sp: &WlSpec, i: usize, who: &str, amt: u128) -> COp {
+    let tiered = is_tiered(&sp.kind);
+    let st = if tiered { Some(i as u32) } else { None };
+    let me = sp.stages[i].members.iter().find(|m| m.0 == who).map(|m| m.1);
+    let mk_al = |n: u32| if n > 0 { Some(n) } else { None };
+    if !is_merkle(&sp.kind) {
+        return match rng.below(5) {
+            0 => mintm(who, amt, None, None, Some(5)),
+            4 => mintm(who, amt, Some(u32::MAX), None, Some(*rng.pick(alloc_pool()))),
+            1 => mintm(who, amt, Some(rng.below(3) as u32), None, Some(rng.range(2, 30) as u32)),
+            2 => mintm(who, amt, None, Some(junk_proof(false)), Some(5)),
+            _ => mintm(who, amt, Some(1), Some(vec![]), Some(7)),
+        };
+    }
+    let tree = sp.tree(i);
+    match rng.below(7) {
+        // no proof, declared allocation
+        0 => mintm(who, amt, st, None, Some(5)),
+        // own proof, larger allocation
+        1 => {
+            let al = me.and_then(mk_al);
+            mintm(who, amt, st, tree.proof(&leaf(st, who, al)), Some(me.unwrap_or(0) + 1 + rng.below(3) as u32))
+        }
+        // proof of another member (their leaf, their allocation)
+        2 => {
+            let o = sp.stages[i].members.iter().find(|m| m.0 != who).cloned();
+            match o {
+                Some((o, n)) => mintm(who, amt, st, tree.proof(&leaf(st, &o, mk_al(n))), mk_al(n)),
+                None => mintm(who, amt, st, Some(vec![]), Some(3)),
+            }
+        }
+        // stage of another tree (proof and leaf of stage j != i)
+        3 if tiered && sp.stages.len() > 1 => {
+            let j = (i + 1 + rng.below(sp.stages.len() as u64 - 1) as usize) % sp.stages.len();
+            let n = sp.stages[j].members.iter().find(|m| m.0 == who).map(|m| m.1).unwrap_or(3);
+            mintm(who, amt, Some(j as u32), sp.tree(j).proof(&leaf(Some(j as u32), who, mk_al(n))).or(Some(vec![])), mk_al(n))
+        }
+        // own proof, stage argument changed / dropped
+        4 => {
+            let al = me.and_then(mk_al);
+            mintm(who, amt, if tiered { None } else { Some(0) }, tree.proof(&leaf(st, who, al)), al)
+        }
+        // empty / junk / malformed proof with a big allocation
+        5 => mintm(
+            who,
+            amt,
+            st,
+            Some(match rng.below(3) {
+                0 => vec![],
+                1 => junk_proof(tiered),
+                _ => vec!["zz-not-hex".to_string()],
+            }),
+            Some(*rng.pick(alloc_pool())),
+        ),
+        // own proof, allocation dropped
+        _ => {
+            let al = me.and_then(mk_al);
+            mintm(who, amt, st, tree.proof(&leaf(st, who, al)), None)
+        }
+    }
+}
+
+pub struct Plan {
+    pub variant: usize,
+    pub kind: &'static str, // "none" = no whitelist
+    pub nstages: usize,
+    pub limits: [u32; 3],
+    pub caps: [Option<u32>; 3],
+    pub counts: [[u32; 3]; 3], // per stage, per buyer: flex count / allocation (0 = not a member)
+    pub pal: u32,
+    pub num_tokens: u32,
+    pub use_init: bool,
+    pub swap: bool,
+    pub contiguous: bool,
+    pub noise: bool,
+    pub second_wl: bool,
+    pub sell_out: bool,
+    pub end_in: Option<u64>,
+    pub unlimited: bool,
+}
+
+const WL_PRICE: u128 = 60;
+const PUB_PRICE: u128 = 100;
+const START: u64 = 3000;
+
+fn plan_spec(p: &Plan, base: u64) -> WlSpec {
+    let tiered = is_tiered(p.kind);
+    let n = if tiered { p.nstages } else { 1 };
+    let mut stages = vec![];
+    for i in 0..n {
+        let start = base + 400 * i as u64;
+        let end = if p.contiguous && i + 1 < n { start + 400 } else { start + 300 };
+        let mut members = vec![];
+        for b in 0..3 {
+            let cnt = p.counts[i][b];
+            if cnt > 0 {
+                // a Merkle leaf without allocation is encoded as n = 0: use it for buyer 2 in stage 0 when count is 3
+                let nn = if is_merkle(p.kind) && b == 1 && cnt == 3 { 0 } else { cnt };
+                members.push((BUYERS[b].to_string(), nn));
+            }
+        }
+        stages.push(StageSpec { start, end, limit: p.limits[i], cap: if tiered { p.caps[i] } else { None }, members });
+    }
+    WlSpec { kind: p.kind.to_string(), price: WL_PRICE, ibc: false, stages }
+}
+
+/// the entitlement the generator expects for buyer b in stage i (only to size the bursts)
+fn expected_ent(p: &Plan, sp: &WlSpec, i: usize, b: usize) -> u32 {
+    match sp.stages[i].members.iter().find(|m| m.0 == BUYERS[b]) {
+        None => 0,
+        Some((_, n)) => {
+            if is_flex(&sp.kind) || (is_merkle(&sp.kind) && *n > 0) {
+                *n
+            } else {
+                p.limits[i]
+            }
+        }
+    }
+}
+
+fn burst(rng: &mut Rng, p: &Plan, v: &Fam, sp: &WlSpec, i: usize, ops: &mut Vec<COp>, full: bool) {
+    // buyer order rotates; the first buyer always tries entitlement + 1 (the boundary), the others fewer unless `full`
+    let order: Vec<usize> = {
+        let r = rng.below(3) as usize;
+        vec![r, (r + 1) % 3, (r + 2) % 3]
+    };
+    let mut queue: Vec<usize> = vec![];
+    for (k, b) in order.iter().enumerate() {
+        let ent = expected_ent(p, sp, i, *b);
+        let tries = if k == 0 || full { ent + 1 } else { rng.range(1, (ent.max(1)) as u64) as u32 };
+        for _ in 0..tries.min(4) {
+            queue.push(*b);
+        }
+    }
+    // interleave (in the probes the first buyer runs into its own limit before a stage cap can bind)
+    let keep = if p.noise { 0 } else { (expected_ent(p, sp, i, order[0]) + 1).min(4) as usize };
+    for k in (keep + 1..queue.len()).rev() {
+        let j = keep + rng.below((k - keep) as u64 + 1) as usize;
+        queue.swap(k, j);
+    }
+    for b in queue {
+        let who = BUYERS[b];
+        let amt = if p.noise && rng.chance(1, 12) { WL_PRICE + 1 } else { WL_PRICE };
+        if v.merkle && rng.chance(if p.noise { 2 } else { 1 }, 5) {
+            ops.push(adversarial_mint(rng, sp, i, who, amt));
+        }
+        ops.push(honest_mint(v, sp, i, who, amt));
+    }
+    if !p.noise || rng.chance(1, 2) {
+        ops.push(honest_mint(v, sp, i, STRANGER, WL_PRICE));
+    }
+}
+
+fn history(rng: &mut Rng, p: &Plan, tag: &str) -> Case {
+    let v = fam(p.variant);
+    let mut ops: Vec<COp> = vec![];
+    let mut init_wl = None;
+    let mut cur: Option<WlSpec> = None;
+    if p.kind != "none" {
+        let sp = plan_spec(p, 1000);
+        if p.use_init && !is_merkle(p.kind) && !v.oe {
+            // the sale world's helper: one limit / cap / member list for all stages
+            let n = if is_tiered(p.kind) { p.nstages } else { 1 };
+            let windows: Vec<(u64, u64)> = (0..n).map(|i| (1000 + 400 * i as u64, 1300 + 400 * i as u64)).collect();
+            let members: Vec<String> = (0..3).filter(|b| p.counts[0][*b] > 0).map(|b| BUYERS[b].to_string()).collect();
+            init_wl = Some(InitWl { kind: p.kind.into(), windows: windows.clone(), limit: p.limits[0], cap: p.caps[0], flex_count: p.limits[0], members: members.clone(), price: WL_PRICE });
+            // what that helper builds, as a spec (for sizing the bursts and honest arguments)
+            let stages = windows
+                .iter()
+                .map(|(s, e)| StageSpec { start: *s, end: *e, limit: p.limits[0], cap: p.caps[0], members: members.iter().map(|m| (m.clone(), p.limits[0])).collect() })
+                .collect();
+            cur = Some(WlSpec { kind: p.kind.into(), price: WL_PRICE, ibc: false, stages });
+        }
+        if cur.is_none() || p.swap {
+            if p.swap && cur.is_none() {
+                // a first whitelist that is swapped out again before it starts
+                let mut first = sp.clone();
+                for s in first.stages.iter_mut() {
+                    s.limit = 3;
+                    for m in s.members.iter_mut() {
+                        m.1 = 3;
+                    }
+                }
+                ops.push(COp::MakeWl(first));
+                ops.push(COp::Attach { who: CREATOR.into() });
+            }
+            ops.push(at(10, 0));
+            ops.push(COp::MakeWl(sp.clone()));
+            if p.noise && rng.chance(1, 3) {
+                ops.push(COp::Attach { who: STRANGER.into() });
+            }
+            ops.push(COp::Attach { who: CREATOR.into() });
+            cur = Some(sp);
+        }
+    }
+    // a mint before anything is open
+    ops.push(at(500, 0));
+    ops.push(mint(BUYERS[0], PUB_PRICE));
+    if let Some(sp) = cur.clone() {
+        let pp = Plan { limits: if p.use_init && !is_merkle(p.kind) && !v.oe { [p.limits[0]; 3] } else { p.limits }, ..clone_plan(p) };
+        let n = sp.stages.len();
+        for i in 0..n {
+            let st = &sp.stages[i];
+            ops.push(at(st.start, -1));
+            ops.push(honest_mint(&v, &sp, i, BUYERS[0], WL_PRICE));
+            ops.push(at(st.start, 0));
+            burst(rng, &pp, &v, &sp, i, &mut ops, !p.noise);
+            if p.noise && rng.chance(1, 2) {
+                // whitelist-side limit changes mid-stage, then another round
+                match rng.below(4) {
+                    0 => ops.push(COp::WlLimit { stage: i as u32, limit: rng.range(1, 3) as u32 }),
+                    1 => ops.push(COp::WlCap { stage: i as u32, cap: if rng.chance(1, 4) { None } else { Some(rng.range(1, 6) as u32) } }),
+                    2 => ops.push(COp::WlAdd { stage: i as u32, who: (*rng.pick(&[BUYERS[2], STRANGER])).into(), count: rng.range(1, 3) as u32 }),
+                    _ => ops.push(COp::WlRemove { stage: i as u32, who: (*rng.pick(&BUYERS)).into() }),
+                }
+                ops.push(at(st.start + 50, rng.below(1000) as i64));
+                burst(rng, &pp, &v, &sp, i, &mut ops, false);
+            }
+            if p.noise && rng.chance(1, 3) {
+                ops.push(COp::S(Op::UpdatePerAddressLimit { who: CREATOR.into(), limit: rng.range(1, 3) as u32 }));
+            }
+            ops.push(at(st.end, -1));
+            ops.push(honest_mint(&v, &sp, i, *rng.pick(&BUYERS), WL_PRICE));
+            ops.push(at(st.end, 0));
+            ops.push(honest_mint(&v, &sp, i, *rng.pick(&BUYERS), WL_PRICE));
+        }
+        if p.second_wl {
+            // whitelist over, sale not started: swap in a second whitelist with its own window
+            let last = sp.stages[n - 1].end;
+            ops.push(at(last + 20, 0));
+            let k2 = *rng.pick(&KINDS.iter().filter(|k| compatible(&v, k)).cloned().collect::<Vec<_>>());
+            let p2 = Plan { kind: k2, nstages: 1, contiguous: false, ..clone_plan(p) };
+            let mut sp2 = plan_spec(&p2, last + 100);
+            sp2.stages[0].end = sp2.stages[0].start + 200;
+            ops.push(COp::MakeWl(sp2.clone()));
+            ops.push(COp::Attach { who: CREATOR.into() });
+            ops.push(at(sp2.stages[0].start, 0));
+            burst(rng, &p2, &v, &sp2, 0, &mut ops, false);
+            ops.push(at(sp2.stages[0].end, 0));
+            ops.push(honest_mint(&v, &sp2, 0, BUYERS[0], WL_PRICE));
+        }
+    }
+    // ---- public phase ----
+    let pm = |who: &str, amt: u128| if v.merkle { mintm(who, amt, None, None, None) } else { mint(who, amt) };
+    ops.push(at(START, -1));
+    ops.push(pm(BUYERS[1], PUB_PRICE));
+    ops.push(at(START, 0));
+    let mut pal = p.pal;
+    for round in 0..2 {
+        let r = rng.below(3) as usize;
+        for k in 0..3 {
+            let b = (r + k) % 3;
+            let tries = if k == 0 || !p.noise { pal + 1 } else { rng.range(1, pal as u64 + 1) as u32 };
+            for _ in 0..tries.min(4) {
+                if v.merkle && rng.chance(1, 4) {
+                    ops.push(mintm(BUYERS[b], PUB_PRICE, Some(0), None, Some(9)));
+                } else {
+                    ops.push(pm(BUYERS[b], if p.noise && rng.chance(1, 15) { PUB_PRICE - 1 } else { PUB_PRICE }));
+                }
+            }
+        }
+        if round == 0 {
+            // limit update mid-history (by a stranger first, must fail), then the next round against the new limit
+            ops.push(COp::S(Op::UpdatePerAddressLimit { who: STRANGER.into(), limit: 3 }));
+            let newpal = if p.noise { rng.range(1, 4) as u32 } else { (pal % 3) + 1 };
+            ops.push(COp::S(Op::UpdatePerAddressLimit { who: CREATOR.into(), limit: newpal }));
+            if newpal <= 3 || v.flex || v.oe {
+                pal = newpal;
+            }
+            ops.push(at(START + 100, 7));
+        }
+    }
+    // admin mints count for the admin and are not limited
+    let air = || if v.oe { native(OE_AIRDROP) } else { vec![] };
+    for _ in 0..(p.pal + 1) {
+        ops.push(COp::S(Op::MintTo { who: CREATOR.into(), recipient: BUYERS[0].into(), funds: air() }));
+    }
+    if !v.oe {
+        ops.push(COp::S(Op::MintFor { who: CREATOR.into(), token_id: p.num_tokens, recipient: BUYERS[2].into(), funds: vec![] }));
+    }
+    ops.push(pm(CREATOR, PUB_PRICE));
+    ops.push(COp::S(Op::MintTo { who: STRANGER.into(), recipient: STRANGER.into(), funds: air() }));
+    // purge while the sale is on must fail and change nothing
+    ops.push(COp::S(Op::Purge { who: STRANGER.into() }));
+    ops.push(pm(BUYERS[0], PUB_PRICE));
+    if p.sell_out && !p.unlimited {
+        ops.push(COp::SellOut);
+        ops.push(COp::S(Op::Purge { who: STRANGER.into() }));
+        ops.push(pm(BUYERS[0], PUB_PRICE));
+        ops.push(COp::S(Op::MintTo { who: CREATOR.into(), recipient: BUYERS[1].into(), funds: air() }));
+    }
+    if let Some(end) = p.end_in {
+        // open edition: the end time, one nanosecond around it; a purge only after it; nothing mints afterwards
+        if p.noise && rng.chance(1, 3) {
+            ops.push(COp::E(OeOp::UpdateEndTime { who: CREATOR.into(), secs: end, nanos: 0 }));
+        }
+        ops.push(at(end, -1));
+        ops.push(pm(BUYERS[2], PUB_PRICE));
+        ops.push(COp::S(Op::Purge { who: STRANGER.into() }));
+        ops.push(at(end, 0));
+        ops.push(pm(BUYERS[2], PUB_PRICE));
+        ops.push(COp::S(Op::Purge { who: STRANGER.into() }));
+        ops.push(at(end, 1));
+        ops.push(COp::S(Op::Purge { who: STRANGER.into() }));
+        ops.push(pm(BUYERS[2], PUB_PRICE));
+        ops.push(COp::S(Op::MintTo { who: CREATOR.into(), recipient: BUYERS[1].into(), funds: air() }));
+        ops.push(COp::E(OeOp::UpdateEndTime { who: CREATOR.into(), secs: end + 500, nanos: 0 }));
+        ops.push(pm(BUYERS[1], PUB_PRICE));
+    }
+    Case { tag: tag.into(), variant: p.variant, num_tokens: p.num_tokens, pal: p.pal, price: PUB_PRICE, start_in: START, init_wl, end_in: p.end_in, unlimited: p.unlimited, ops }
+}
+
+impl Plan {
+    /// open edition: either a token count or an end time (or both); sometimes no count at all
+    fn fix_oe(mut self, rng: &mut Rng) -> Plan {
+        if self.variant >= 6 {
+            if self.end_in.is_some() && rng.chance(1, 3) {
+                self.unlimited = true;
+            }
+            self.use_init = false;
+        }
+        self
+    }
+}
+
+fn clone_plan(p: &Plan) -> Plan {
+    Plan { variant: p.variant, kind: p.kind, nstages: p.nstages, limits: p.limits, caps: p.caps, counts: p.counts, pal: p.pal, num_tokens: p.num_tokens, use_init: p.use_init, swap: p.swap, contiguous: p.contiguous, noise: p.noise, second_wl: p.second_wl, sell_out: p.sell_out, end_in: p.end_in, unlimited: p.unlimited }
+}
+
+fn random_plan(rng: &mut Rng, variant: usize, kind: &'static str) -> Plan {
+    let mut counts = [[0u32; 3]; 3];
+    for i in 0..3 {
+        for b in 0..3 {
+            counts[i][b] = if rng.chance(1, 6) { 0 } else { rng.range(1, 3) as u32 };
+        }
+    }
+    let mut caps = [None; 3];
+    for c in caps.iter_mut() {
+        *c = if rng.chance(1, 3) { None } else { Some(rng.range(1, 5) as u32) };
+    }
+    Plan {
+        variant,
+        kind,
+        nstages: rng.range(1, 3) as usize,
+        limits: [rng.range(1, 3) as u32, rng.range(1, 3) as u32, rng.range(1, 3) as u32],
+        caps,
+        counts,
+        pal: rng.range(1, 3) as u32,
+        num_tokens: rng.range(24, 40) as u32,
+        use_init: rng.chance(1, 4),
+        swap: rng.chance(1, 4),
+        contiguous: rng.chance(1, 2),
+        noise: true,
+        second_wl: rng.chance(1, 5),
+        sell_out: rng.chance(1, 3),
+        end_in: if variant >= 6 && rng.chance(3, 4) { Some(6000) } else { None },
+        unlimited: false,
+    }
+    .fix_oe(rng)
+}
+
+/// the guard-boundary probes: every variant x every compatible kind, entitlement + 1 attempts by a
+/// member in every stage, stage caps reached by several buyers, per-address limit + 1 public mints
+fn probe_plans() -> Vec<(String, Plan)> {
+    let mut v = vec![];
+    for variant in 0..9 {
+        let var = fam(variant);
+        let mut k = 0u32;
+        for kind in ["none", "plain", "tiered", "flex", "tiered-flex", "merkle", "tiered-merkle"] {
+            if kind != "none" && !compatible(&var, kind) {
+                continue;
+            }
+            k += 1;
+            let l = 1 + (variant as u32 + k) % 3;
+            let tiered = is_tiered(kind);
+            // stage limits differ; caps: stage 0 binds before the per-address limits do (cap < members * limit),
+            // stage 1 has no cap, stage 2 cap equals one buyer's entitlement
+            let limits = [l, 1 + l % 3, 1 + (l + 1) % 3];
+            let caps = if tiered { [Some(limits[0] + 1), Some(limits[1] + 1), Some(limits[2])] } else { [None; 3] };
+            // flex counts / Merkle allocations: three different figures per stage (none equal to all limits)
+            let cn = |x: u32| [x, x % 3 + 1, (x + 1) % 3 + 1];
+            let counts = [cn(limits[0]), cn(limits[1]), cn(limits[2])];
+            v.push((
+                format!("probe:{}:{}", var.name, kind),
+                Plan {
+                    variant,
+                    kind,
+                    nstages: if tiered { 3 } else { 1 },
+                    limits,
+                    caps,
+                    counts,
+                    pal: if var.flex { 3 } else { 1 + (variant as u32 + k + 1) % 3 },
+                    num_tokens: 30,
+                    use_init: false,
+                    swap: k % 2 == 0,
+                    contiguous: variant % 2 == 0,
+                    noise: false,
+                    second_wl: false,
+                    sell_out: k == 1,
+                    end_in: if variant >= 6 && k != 1 { Some(6000) } else { None },
+                    unlimited: variant >= 6 && k == 3,
+                },
+            ));
+        }
+    }
+    v
+}
+
+/// curated minimal histories (always first)
+fn corpus() -> Vec<Case> {
+    let mut v = vec![];
+    // --- the repaired defect C03:merkle-unproven-allocation, both Merkle variants ---
+    for variant in [4usize, 5, 8] {
+        // plain whitelist, per_address_limit 1: Mint{proof_hashes: None, allocation: Some(5)} four times => exactly one
+        if variant < 6 {
+        v.push(Case {
+            tag: "corpus:unproven-allocation:plain-whitelist".into(),
+            variant,
+            num_tokens: 10,
+            pal: 3,
+            price: PUB_PRICE,
+            start_in: START,
+            end_in: None,
+            unlimited: false,
+            init_wl: Some(InitWl { kind: "plain".into(), windows: vec![(1000, 2000)], limit: 1, cap: None, flex_count: 1, members: vec!["buyer1".into(), "buyer2".into()], price: WL_PRICE }),
+            ops: vec![
+                at(1000, 0),
+                mintm("buyer1", WL_PRICE, None, None, Some(5)),
+                mintm("buyer1", WL_PRICE, None, None, Some(5)),
+                mintm("buyer1", WL_PRICE, None, None, Some(5)),
+                mintm("buyer1", WL_PRICE, None, None, Some(5)),
+                mintm("buyer2", WL_PRICE, Some(2), Some(junk_proof(false)), Some(5)),
+                mintm("buyer2", WL_PRICE, Some(2), Some(vec![]), Some(5)),
+                mintm("buyer3", WL_PRICE, None, None, Some(5)),
+            ],
+        });
+        }
+        // Merkle whitelist, leaf (buyer1, 1): a proof for allocation 1 presented with allocation 5, four times; then
+        // no proof at all; then honestly: exactly one
+        let sp = WlSpec {
+            kind: "merkle".into(),
+            price: WL_PRICE,
+            ibc: false,
+            stages: vec![StageSpec { start: 1000, end: 2000, limit: 1, cap: None, members: vec![("buyer1".into(), 1), ("buyer2".into(), 2), ("stranger".into(), 0)] }],
+        };
+        let t = sp.tree(0);
+        let p1 = t.proof(&leaf(None, "buyer1", Some(1)));
+        let p2 = t.proof(&leaf(None, "buyer2", Some(2)));
+        let ps = t.proof(&leaf(None, "stranger", None));
+        v.push(Case {
+            tag: "corpus:unproven-allocation:merkle-whitelist".into(),
+            variant,
+            num_tokens: 12,
+            pal: 3,
+            price: PUB_PRICE,
+            start_in: START,
+            end_in: if variant >= 6 { Some(6000) } else { None },
+            unlimited: false,
+            init_wl: None,
+            ops: vec![
+                COp::MakeWl(sp.clone()),
+                COp::Attach { who: CREATOR.into() },
+                at(1000, 0),
+                mintm("buyer1", WL_PRICE, None, p1.clone(), Some(5)),
+                mintm("buyer1", WL_PRICE, None, p1.clone(), Some(5)),
+                mintm("buyer1", WL_PRICE, None, p1.clone(), Some(5)),
+                mintm("buyer1", WL_PRICE, None, p1.clone(), Some(5)),
+                mintm("buyer1", WL_PRICE, None, None, Some(5)),
+                mintm("buyer1", WL_PRICE, None, None, None),
+                mintm("buyer1", WL_PRICE, None, p1.clone(), Some(1)),
+                mintm("buyer1", WL_PRICE, None, p1.clone(), Some(1)),
+                // buyer2 holds allocation 2 (above the Config limit 1): two mints, not three
+                mintm("buyer2", WL_PRICE, None, p2.clone(), Some(2)),
+                mintm("buyer2", WL_PRICE, None, p2.clone(), Some(2)),
+                mintm("buyer2", WL_PRICE, None, p2.clone(), Some(2)),
+                // buyer3 with buyer2's proof; buyer2 with buyer1's proof and a bigger number
+                mintm("buyer3", WL_PRICE, None, p2.clone(), Some(2)),
+                mintm("buyer2", WL_PRICE, None, p1.clone(), Some(3)),
+                // a leaf without allocation: the Config limit (1) applies
+                mintm("stranger", WL_PRICE, None, ps.clone(), None),
+                mintm("stranger", WL_PRICE, None, ps.clone(), None),
+                mintm("stranger", WL_PRICE, None, ps.clone(), Some(4)),
+            ],
+        });
+    }
+    // --- tiered hand-over with the counters per stage, plain and Merkle minters ---
+    for variant in 0..6usize {
+        let var = fam(variant);
+        let kind = if var.flex { "tiered-flex" } else { "tiered" };
+        let sp = WlSpec {
+            kind: kind.into(),
+            price: WL_PRICE,
+            ibc: false,
+            stages: vec![
+                StageSpec { start: 1000, end: 1300, limit: 1, cap: Some(2), members: vec![("buyer1".into(), 1), ("buyer2".into(), 1), ("buyer3".into(), 1)] },
+                StageSpec { start: 1300, end: 1600, limit: 2, cap: Some(3), members: vec![("buyer1".into(), 2), ("buyer2".into(), 2)] },
+                StageSpec { start: 1700, end: 2000, limit: 3, cap: None, members: vec![("buyer1".into(), 3), ("buyer3".into(), 1)] },
+            ],
+        };
+        let hm = |i: usize, who: &str| honest_mint(&var, &sp, i, who, WL_PRICE);
+        v.push(Case {
+            tag: "corpus:tiered-hand-over".into(),
+            variant,
+            num_tokens: 20,
+            pal: 2,
+            price: PUB_PRICE,
+            start_in: START,
+            end_in: None,
+            unlimited: false,
+            init_wl: None,
+            ops: vec![
+                COp::MakeWl(sp.clone()),
+                COp::Attach { who: CREATOR.into() },
+                at(1000, 0),
+                hm(0, "buyer1"),
+                hm(0, "buyer1"),
+                hm(0, "buyer2"),
+                hm(0, "buyer3"), // stage cap 2 reached
+                at(1300, -1),
+                hm(0, "buyer3"),
+                at(1300, 0),
+                hm(1, "buyer1"),
+                hm(1, "buyer1"),
+                hm(1, "buyer1"),
+                hm(1, "buyer2"),
+                hm(1, "buyer2"), // stage cap 3 reached
+                hm(1, "buyer3"),
+                at(1600, 0), // gap: no stage active, sale not started
+                hm(1, "buyer2"),
+                at(1700, 0),
+                hm(2, "buyer1"),
+                hm(2, "buyer1"),
+                hm(2, "buyer1"),
+                hm(2, "buyer1"),
+                hm(2, "buyer3"),
+                hm(2, "buyer3"),
+                at(2000, 0),
+                hm(2, "buyer1"),
+                at(START, 0),
+                hm(2, "buyer1"),
+                hm(2, "buyer1"),
+                hm(2, "buyer1"),
+            ],
+        });
+    }
+    v
+}
+
+/// pairings the wire formats do not admit: creation with / SetWhitelist to an incompatible kind, then mints
+fn incompatible_cases() -> Vec<Case> {
+    let mut v = vec![];
+    for variant in 0..6usize {
+        let var = fam(variant);
+        for kind in KINDS {
+            if compatible(&var, kind) {
+                continue;
+            }
+            let tiered = is_tiered(kind);
+            let mk = |s: u64, e: u64| StageSpec { start: s, end: e, limit: 1, cap: None, members: vec![("buyer1".into(), 2), ("buyer2".into(), 1)] };
+            let sp = WlSpec { kind: kind.into(), price: WL_PRICE, ibc: false, stages: if tiered { vec![mk(1000, 1300), mk(1300, 1600)] } else { vec![mk(1000, 1600)] } };
+            let pm = |who: &str, amt: u128| if var.merkle { mintm(who, amt, None, None, None) } else { mint(who, amt) };
+            let mut ops = vec![COp::MakeWl(sp.clone()), COp::Attach { who: CREATOR.into() }, at(1000, 0)];
+            for who in ["buyer1", "buyer1", "buyer2", "buyer3"] {
+                ops.push(pm(who, WL_PRICE));
+                if var.merkle && who != "buyer2" {
+                    ops.push(mintm(who, WL_PRICE, None, None, Some(5)));
+                }
+            }
+            ops.push(at(1300, 0));
+            for who in ["buyer1", "buyer1"] {
+                ops.push(pm(who, WL_PRICE));
+            }
+            ops.push(at(START, 0));
+            for who in ["buyer1", "buyer1", "buyer1"] {
+                ops.push(pm(who, PUB_PRICE));
+            }
+            v.push(Case { tag: format!("incompatible:{}:{}", var.name, kind), variant, num_tokens: 12, pal: 2, price: PUB_PRICE, start_in: START, init_wl: None, end_in: None, unlimited: false, ops: ops.clone() });
+            // the same whitelist kind given at creation (only the kinds the sale world's helper builds)
+            if !is_merkle(kind) {
+                let windows = if tiered { vec![(1000, 1300), (1300, 1600)] } else { vec![(1000, 1600)] };
+                v.push(Case {
+                    tag: format!("incompatible-at-creation:{}:{}", var.name, kind),
+                    variant,
+                    num_tokens: 12,
+                    pal: 2,
+                    price: PUB_PRICE,
+                    start_in: START,
+                    end_in: None,
+                    unlimited: false,
+                    init_wl: Some(InitWl { kind: kind.into(), windows, limit: 1, cap: None, flex_count: 2, members: vec!["buyer1".into(), "buyer2".into()], price: WL_PRICE }),
+                    ops: ops[2..].to_vec(),
+                });
+            }
+        }
+    }
+    v
+}
+
+/// smallest prefix that still shows a violation with the same key, then one greedy pass dropping single ops
+fn shrink(c: &Case, key: &str) -> Case {
+    let shows = |ops: &[COp]| -> bool {
+        let mut t = c.clone();
+        t.ops = ops.to_vec();
+        run_case(&t).violations.iter().any(|v| v.0 == key)
+    };
+    let (mut lo, mut hi) = (0usize, c.ops.len());
+    if !shows(&c.ops) {
+        return c.clone();
+    }
+    while lo < hi {
+        let mid = (lo + hi) / 2;
+        if shows(&c.ops[..mid]) {
+            hi = mid;
+        } else {
+            lo = mid + 1;
+        }
+    }
+    let mut ops: Vec<COp> = c.ops[..hi].to_vec();
+    let mut i = ops.len();
+    let mut budget = 120;
+    while i > 0 && budget > 0 {
+        i -= 1;
+        budget -= 1;
+        let mut t = ops.clone();
+        t.remove(i);
+        if shows(&t) {
+            ops = t;
+        }
+    }
+    let mut out = c.clone();
+    out.ops = ops;
+    out.tag = format!("{} (shrunk)", c.tag);
+    out
+}
+
+fn all_cases(a: &Args) -> Vec<Case> {
+    let mut rng = Rng::new(a.seed);
+    let mut v = corpus();
+    for (tag, p) in probe_plans() {
+        v.push(history(&mut rng, &p, &tag));
+    }
+    v.extend(incompatible_cases());
+    let per_pair = if a.thorough() { 12 } else { 2 };
+    for variant in 0..9 {
+        let var = fam(variant);
+        for kind in ["none", "plain", "tiered", "flex", "tiered-flex", "merkle", "tiered-merkle"] {
+            if kind != "none" && !compatible(&var, kind) {
+                continue;
+            }
+            for _ in 0..per_pair {
+                let p = random_plan(&mut rng, variant, kind);
+                v.push(history(&mut rng, &p, &format!("random:{}:{}", var.name, kind)));
+            }
+        }
+    }
+    v
+}
+
+pub fn run(a: &Args) {
+    let out = OutDir::new(&a.out);
+    let mut rep = Report { property: "C03".into(), tier: a.tier.clone(), seed: a.seed, ..Default::default() };
+    let cases: Vec<Case> = if let Some(p) = &a.replay {
+        #[derive(Deserialize)]
+        struct ReplayFile {
+            case: Case,
+        }
+        let rf: ReplayFile = serde_json::from_str(&std::fs::read_to_string(p).expect("replay file")).expect("replay json");
+        vec![rf.case]
+    } else {
+        all_cases(a)
+    };
+    let mut coq_cases = vec![];
+    let mut oe_cases = vec![];
+    let mut nviol = 0;
+    for (i, c) in cases.iter().enumerate() {
+        let r = run_case(c);
+        rep.evaluations += r.steps;
+        rep.distinct_nontrivial += r.ok_mints;
+        for (k, v) in &r.hist {
+            *rep.histogram.entry(k.clone()).or_insert(0) += v;
+        }
+        for (key, what) in r.violations.iter().take(3) {
+            nviol += 1;
+            if nviol <= 20 {
+                let small = if nviol <= 3 && a.replay.is_none() { shrink(c, key) } else { c.clone() };
+                let body = format!(
+                    "{{\n \"property\": \"C03\",\n \"case\": {},\n \"violation\": {}\n}}\n",
+                    serde_json::to_string(&small).unwrap(),
+                    serde_json::to_string(what).unwrap()
+                );
+                let path = out.write_replay(&format!("C03-{}.json", nviol), &body);
+                rep.violations.push(Violation { key: key.clone(), what: what.clone(), replay: path });
+            }
+        }
+        if rep.samples.len() < 3 && i % 23 == 5 {
+            rep.samples.push(serde_json::json!({"tag": c.tag, "variant": fam(c.variant).name, "num_tokens": c.num_tokens, "pal": c.pal,
+                "first_ops": c.ops.iter().take(8).map(|o| format!("{:?}", o)).collect::<Vec<_>>(), "steps": r.steps, "ok_steps": r.ok_steps, "ok_mints": r.ok_mints}));
+        }
+        if let Some(cq) = r.coq {
+            if c.variant >= 6 {
+                oe_cases.push(cq);
+            } else {
+                coq_cases.push(cq);
+            }
+        }
+    }
+    rep.rule = "histories of Mint (with stage/proof/allocation arguments on the Merkle variants), MintTo, MintFor, Purge, UpdatePerAddressLimit and SetWhitelist by three buyers, a stranger and the admin on every (minter variant x whitelist kind) pairing of the six vending and three open-edition minters, whitelist-side limit/cap/member updates and the clock at every stage edge in between; evaluations = minter steps executed on the real contracts; distinct_nontrivial = Mint calls that completed (each one checked against the limit or entitlement in force)".into();
+    if !coq_cases.is_empty() {
+        out.write_cases("C03", "From LP Require Import Num Pay Sg1 Bank MinterVending SaleCorr.", "scase", "sale_check", &coq_cases, 4, &mut rep);
+    }
+    if !oe_cases.is_empty() {
+        out.write_cases("C03oe", "From LP Require Import Num Pay Sg1 Bank MinterVending MinterOpen SaleOeCorr.", "oecase", "sale_oe_check", &oe_cases, 2, &mut rep);
+    }
+    out.finish(&rep);
+    println!("C03 harness: {} cases, {} steps, {} monitor violations", cases.len(), rep.evaluations, nviol);
 }
